@@ -24,3 +24,7 @@ def run(tier, seed):
                         "memory/fd leak clauses are sanitizer side conditions (LeakSanitizer off in this driver)"],
     }
     return ec.standard_run("C10", tier, seed, plan)
+
+
+def replay(case, seed):
+    return ec.replay_case("C10", case, seed)
